@@ -142,6 +142,14 @@ func c07Instances() []c07Instance {
 			}})
 		}
 	}
+	// extensions built with non-default options (id prefix, titles, classes, protocol list, substitutions): option values
+	// are shared by every goroutine that uses the instance
+	for _, sp := range cfg.RichSpecs() {
+		sp := sp
+		out = append(out, c07Instance{Name: sp.Name(), Build: func() (func([]byte) ([]byte, error), func([]byte) ([]byte, error)) {
+			return c07FromMarkdown(sp.Build())
+		}})
+	}
 	out = append(out, c07Instance{Name: "footnote+idprefixfunction+gfm", Build: func() (func([]byte) ([]byte, error), func([]byte) ([]byte, error)) {
 		return c07FromMarkdown(goldmark.New(goldmark.WithExtensions(extension.GFM, extension.NewFootnote(extension.WithFootnoteIDPrefixFunction(c07PrefixFn)))))
 	}})
